@@ -248,3 +248,23 @@ func VEqEAPExact(a, b *EAP) bool {
 	}
 	return ok
 }
+
+// VGuarded copies b into a buffer with 24 further octets (0xA5) behind it, so that the argument handed to
+// the code under test is a view with spare capacity of memory its caller goes on using; VGuardIntact
+// checks that neither the view nor what lies behind it was written.
+func VGuarded(b []byte) []byte {
+	g := make([]byte, len(b)+24)
+	copy(g, b)
+	for i := len(b); i < len(g); i++ {
+		g[i] = 0xA5
+	}
+	return g
+}
+
+func VGuardIntact(g, b []byte) bool {
+	ok := vr.EqBytes(g[:len(b)], b)
+	for i := len(b); i < len(g); i++ {
+		ok = vr.All(ok, g[i] == 0xA5)
+	}
+	return ok
+}
